@@ -196,6 +196,39 @@ def send_log_msg_shape():
     return 'bool', cbool(got == ["conn.send_reply((LOG_EVENT,f'{modname}:{level}',msg))"])
 
 
+# ---- activate / deactivate: event subscriptions only
+LOGGING_ENTRY_POINTS = {'reset_connection', 'remove_connection', 'set_all_log_levels', 'setRemoteLogging', 'set_conn_level',
+                        'handle_logging', 'handle__ident', 'remoteLogHandler', 'send_log_msg'}
+
+
+def activation_handlers_leave_logging_alone():
+    """Dispatcher.handle_activate / handle_deactivate work on event subscriptions only: the methods of the dispatcher they
+    call (self.<method>(...), transitively) are subscribe / unsubscribe and nothing else, and none of these functions
+    mentions reset_connection, remove_connection, set_all_log_levels, setRemoteLogging, set_conn_level, handle_logging,
+    handle__ident, remoteLogHandler or send_log_msg (as attribute or name), nor uses getattr / a with statement: a plain
+    `activate` / `deactivate` cannot change which log messages a connection receives.  (seed C20-8: handle_deactivate
+    without specifier called reset_connection, which also switches remote logging off.)"""
+    cls = _disp()
+    todo = ['handle_activate', 'handle_deactivate']
+    seen = []
+    ok = True
+    while todo:
+        name = todo.pop()
+        if name in seen:
+            continue
+        seen.append(name)
+        f = find_func(cls, name)          # Shape when missing: fail closed
+        for n in ast.walk(f):
+            if isinstance(n, ast.Attribute) and n.attr in LOGGING_ENTRY_POINTS:
+                ok = False
+            if isinstance(n, ast.Name) and (n.id in LOGGING_ENTRY_POINTS or n.id in ('getattr', 'setattr', 'vars')):
+                ok = False
+            if isinstance(n, ast.Call) and isinstance(n.func, ast.Attribute) and isinstance(n.func.value, ast.Name) \
+                    and n.func.value.id == 'self':
+                todo.append(n.func.attr)
+    return 'bool', cbool(ok and sorted(seen) == ['handle_activate', 'handle_deactivate', 'subscribe', 'unsubscribe'])
+
+
 # ---- concurrent layer: who takes Dispatcher._lock, who touches RemoteLogHandler.subscriptions
 def handle_request_holds_lock():
     """Dispatcher.handle_request calls the handler of the request inside `with self._lock:` (requests are serialised)"""
@@ -293,6 +326,7 @@ def rollover_removes_old_earlier():
 FACTS = [OFF, COMLOG, log_levels_table_shape, check_level_shape, handle_shape, handle_iterates_snapshot, handle_compares_ge,
          set_conn_level_shape, module_sets_own_name, set_all_iterates_all_modules, handle_logging_shape,
          reset_sets_all_off, remove_calls_reset, ident_calls_reset, send_log_msg_shape,
+         activation_handlers_leave_logging_alone,
          handle_request_holds_lock, close_path_takes_no_lock, subscriptions_touched_in_three_places,
          rollover_guard_max_days, rollover_lists_own_logs, rollover_removes_old_earlier]
 
